@@ -31,7 +31,7 @@ ASSUMPTIONS = [
 
 def budget(tier):
     if tier == "quick":
-        return {"examples": 240, "shards": 16, "time_s": 60}
+        return {"examples": 192, "shards": 16, "time_s": 75}
     return {"examples": 4800, "shards": 16, "time_s": 900}
 
 
